@@ -98,7 +98,8 @@ CLAIMED = {
                 "spec/Grammar.tla the response grammars of DESIGN.md Appendix E.5; MC_C03 enumerates malformed and boundary "
                 "requests per protocol x selector/argument shape against a tree with every handler's content kind and checks "
                 "OneResponse, NoUnhandled, Bounded, Terminates; MC_C03_hist is the self-composition for HistoryFree (histories "
-                "of read-only requests, exhaustive to length 2, simulated beyond). Every enumerated request/history is sent "
+                "of read-only requests incl. the script gateway, exhaustive to length 2, simulated beyond; each history in a "
+                "process of its own). Every enumerated request/history is sent "
                 "to the real server; alpha lexes the bytes into frames and counts environment operations; TraceC03 judges "
                 "the grammar, the log classes and history independence.",
         "note": "Trusted: TLC; frame lexers in harness/c03_lib.py; Bounded counts environment operations, not wall-clock. Two known "
@@ -111,7 +112,9 @@ CLAIMED = {
                 "its inverse on byte classes; MC_C04 enumerates size class x content class x name class x handler list x "
                 "request family. Every model case becomes a real file fetched through the real server (in memory, and over a "
                 "socketpair with real TLS for decompression); read schedules are imposed on the real loop by a substituted "
-                "open(). Byte identity itself is computed by the harness per case (flag eq) and only judged by TraceC04 "
+                "open() (read() and readinto()); spec/MC_C04_overlap.tla checks every interleaving of TWO copy loops and its "
+                "schedule shape is replayed by running a complete second transfer inside every write() of the first. "
+                "Byte identity itself is computed by the harness per case (flag eq) and only judged by TraceC04 "
                 "(Delivered, TypeTruthful, LenTruthful, BodyExact, WmlInvertible, HeadNoBody, HeadIsGetHeaders).",
         "note": "Trusted: TLC; byte comparison and WML lexer in harness/c04.py; contents are class representatives, not arbitrary "
                 "bytes; WAP invertibility is up to trailing white space of a line (the code's rstrip).",
@@ -257,7 +260,7 @@ CLAIMED = {
         "text": "Exhaustive TLC model check of the start-up state machine (spec/Startup.tla, MC_C19: all 16 "
                 "chroot/setuid/setgid/TLS combinations plus an unreadable usechroot value x started by root or by an "
                 "ordinary account x started from elsewhere / a look-alike sibling of the root / inside the root x every "
-                "failing call incl. the account look-ups, OS permission model) AND every "
+                "failing call incl. the account look-ups, OS permission model; configured accounts numbered 0 too) AND every "
                 "initial state replayed into the real initialization.initialize() under recording substitutes, plus "
                 "every call the real code made failing in turn; TLC validates each recorded call sequence against "
                 "the same actions and evaluates every clause (BindFirst, ChrootFirst, GroupsBeforeGid, GidBeforeUid, "
